@@ -162,6 +162,8 @@ type Spec struct {
 
 	OrderSensitive bool
 	Snap           bool // snapshot runs make sense (sorters are total on these keys)
+	ExtraPart      bool // the extraction has one element more than the aggregator uses
+	Plain          bool // plain keys only (screens can be read back)
 	CrashOnly      bool // the keys cannot be represented in the output (a group value that contains the element separator): only "the command completes with the expected exit status, identically for every variant" is judged
 	Monotone       bool // displayed rows/cells only grow and values only grow: intermediate renders cannot leave anything but padding behind
 	HasNeg         bool
@@ -351,7 +353,7 @@ func genSpec(r *run.Rand, thorough bool, known knownFn) *Spec {
 	s.Matcher = r.Pick([]string{"regex", "regex", "named", "dissect"})
 	s.ByName = s.Matcher != "regex" && r.Bool()
 	if r.Intn(3) == 0 {
-		s.Ignore = r.Pick([]string{"eq", "not"})
+		s.Ignore = r.Pick([]string{"eq", "not", "two", "two"})
 	}
 	s.NoFormat = r.Intn(5) != 0
 
@@ -469,8 +471,9 @@ func genSpec(r *run.Rand, thorough bool, known knownFn) *Spec {
 		okB = func(k string) bool { return clean(k) && (prevB == nil || prevB(k)) }
 	}
 
-	if r.Intn(4) == 0 {
-		// plain keys only: the screens of histogram / table can then be read back cell by cell
+	if r.Intn(4) == 0 || (s.Cmd == "reduce" && r.Intn(2) == 0) {
+		// plain keys only: the screens of histogram / table / bar graph / sparkline / reduce can then be read back cell by cell
+		s.Plain = true
 		prevA, prevB := okA, okB
 		okA = func(k string) bool { return plainKeyRe.MatchString(k) && k != "Total" && (prevA == nil || prevA(k)) }
 		okB = func(k string) bool { return plainKeyRe.MatchString(k) && k != "Total" && (prevB == nil || prevB(k)) }
@@ -569,8 +572,10 @@ func genSpec(r *run.Rand, thorough bool, known knownFn) *Spec {
 			l.F[3] = incOf()
 			l.F[4] = numOf()
 			l.F[5] = "keep"
-			if r.Intn(6) == 0 {
+			if x := r.Intn(12); x < 2 {
 				l.F[5] = "skip"
+			} else if x < 4 && s.Ignore == "two" {
+				l.F[5] = "drop" // ignored by the second of two rules
 			}
 			s.Lines = append(s.Lines, l)
 		}
@@ -640,6 +645,14 @@ func genSpec(r *run.Rand, thorough bool, known knownFn) *Spec {
 		ag = aggregate(s)
 	}
 	s.HasNeg = ag.hasNeg
+
+	// ---- more elements than the aggregator uses ({$ key inc note}, a third -e): whatever follows the increment is not part
+	// of it (the reference ignores it, see aggregate)
+	full := map[string]int{"histo": 2, "table": 3, "heatmap": 3, "spark": 3, "bars": 3}
+	if n, ok := full[s.Cmd]; ok && len(s.Parts) == n && r.Intn(6) == 0 {
+		s.Parts = append(s.Parts, fld(pickInt(r, []int{4, 5})))
+		s.ExtraPart = true
+	}
 
 	// ---- extraction form
 	s.Form = "multi"
@@ -814,9 +827,15 @@ func genReduce(r *run.Rand, s *Spec, known knownFn) {
 		gf = []int{2, 1}
 	}
 	gnames := []string{"k", "grp", "a b", "key;1", "Ω"}
+	if s.Plain {
+		gnames = []string{"k", "grp", "g", "key1", "name"} // names that can be read back from the screen
+		if ng == 0 {
+			ng = 1
+		}
+	}
 	for i := 0; i < ng; i++ {
 		g := RGroup{Pos: posOf(gf[i])}
-		if r.Intn(4) != 0 {
+		if r.Intn(4) != 0 || s.Plain {
 			g.Name = gnames[(i*2+r.Intn(2))%len(gnames)]
 			if i == 1 && g.Name == rd.Groups[0].Name {
 				g.Name = "g2"
@@ -856,7 +875,7 @@ func genReduce(r *run.Rand, s *Spec, known knownFn) {
 		if k == "last" {
 			a.Pos = posOf(pickInt(r, []int{1, 2, 3}))
 		}
-		if r.Intn(5) == 0 {
+		if r.Intn(5) == 0 && !s.Plain {
 			a.Name = "" // unnamed: the column is named after the expression
 			if used[a.expr()] {
 				a.Name = fmt.Sprintf("%s%d", k, i)
@@ -1023,6 +1042,9 @@ func (s *Spec) ignoreArgs() []string {
 		return []string{"-i", "{eq " + f + " skip}"}
 	case "not":
 		return []string{"--ignore", "{not {eq " + f + " keep}}"}
+	case "two":
+		// two rules that both fire, on different lines: the set of rules is shared by all workers
+		return []string{"-i", "{eq " + f + " skip}", "-i", "{eq " + f + " drop}"}
 	}
 	return nil
 }
